@@ -464,6 +464,61 @@ func ruleExternalAcquireReleased() check.Rule {
 								}
 							}
 						}
+						// an acquisition made in the subscribe function itself: every later return hands back a teardown (the
+						// early `return nil` of an error branch taken after the resource exists leaks it)
+						if released && innermostFunc(m, sc.Pkg, call) == ast.Node(sc.Lit) {
+							var acqErr types.Object
+							if as, ok := m.Parent(sc.Pkg, call).(*ast.AssignStmt); ok && len(as.Lhs) == 2 {
+								if id, ok := as.Lhs[1].(*ast.Ident); ok {
+									acqErr = objOf(info, id)
+								}
+							}
+							hasDefer := false
+							ast.Inspect(sc.Lit.Body, func(y ast.Node) bool {
+								if l, ok := y.(*ast.FuncLit); ok && l != sc.Lit {
+									return false
+								}
+								if d, ok := y.(*ast.DeferStmt); ok && mentionsObj(info, d.Call, obj) {
+									hasDefer = true
+								}
+								return true
+							})
+							ast.Inspect(sc.Lit.Body, func(y ast.Node) bool {
+								if l, ok := y.(*ast.FuncLit); ok && l != sc.Lit {
+									return false
+								}
+								ret, ok := y.(*ast.ReturnStmt)
+								if !ok || ret.Pos() < call.End() || len(ret.Results) != 1 || hasDefer {
+									return true
+								}
+								if id, ok := ast.Unparen(ret.Results[0]).(*ast.Ident); !ok {
+									return true
+								} else if _, isNil := info.Uses[id].(*types.Nil); !isNil {
+									return true
+								}
+								// the failure branch of the acquisition itself: nothing was acquired
+								for cn := m.Parent(sc.Pkg, ret); cn != nil && cn != ast.Node(sc.Lit); cn = m.Parent(sc.Pkg, cn) {
+									if ifs, ok := cn.(*ast.IfStmt); ok && acqErr != nil && mentionsObj(info, ifs.Cond, acqErr) {
+										// …provided the error variable still holds the acquisition's error (not reassigned in between)
+										reassigned := false
+										for _, d := range m.Defs[acqErr] {
+											if d.Pos > call.Pos() && d.Pos < ifs.Pos() {
+												reassigned = true
+											}
+										}
+										if !reassigned {
+											return true
+										}
+									}
+								}
+								released = false
+								c.Report(armed, key+"/on-every-return", ret.Pos(), "after %s.%s succeeded this path returns a nil teardown: the %s acquired above is never given back (%s)", cl.Pkg().Name(), pr.acquire, obj.Name(), pr.why)
+								return true
+							})
+							if !released {
+								continue
+							}
+						}
 						if released {
 							if armed {
 								c.OK(key, call.Pos(), "given back by the teardown (%s)", pr.release)
